@@ -13,6 +13,7 @@ import Scico.Proofs.LinSolveADMM
 import Scico.Proofs.LinSolveADMM2
 import Scico.Proofs.LinSolveADMM3
 import Scico.Proofs.LinSolveADMM4
+import Scico.Proofs.LinSolveADMM5
 import Mathlib.Tactic.NormNum
 
 namespace Scico.Props.C10
@@ -177,6 +178,24 @@ theorem C10_stale_scale_partial (f : SqL2 S M Y') (s1 : S) (terms : List (Term S
     lhsSpec (some (f.withScale s1)) terms x = rhsSpec (some (f.withScale s1)) terms ↔
       (2 * (s1 - f.scale)) • f.A.adj (f.W (f.A.eval x)) = 0 :=
   staleScale_exact f s1 terms x hsys
+
+/-- the same finding for **`FBlockCircularConvolveSolver`**: `D` was divided by the old `2 s0` in `internal_init`, `solve` divides the
+    right-hand side (current scale) by the new `2 s1` (`fblockStaleSystem`) … -/
+theorem C10_fblock_stale_system (f : SqL2 S M Y') (s1 : S) (terms : List (Term S M U)) (hne : terms ≠ []) :
+    ∃ lhs rhs, fblockStaleSystem 0 f s1 terms = some (lhs, rhs) ∧
+      (∀ x, lhs x = f.A.adj (f.A.eval x) + (1 / (2 * f.scale)) • (terms.map fun t => t.rho • t.C.adj (t.C.eval x)).sum) ∧
+      rhs = (1 / (2 * s1)) • rhsSpec (some (f.withScale s1)) terms :=
+  fblockStale_spec f s1 terms hne
+
+/-- … and (unweighted loss, `s0, s1 ≠ 0`) a solution of it satisfies the documented normal equations of the current loss iff
+    `(s1 − s0) · Σ ρ_i C_iᴴ C_i x = 0` -/
+theorem C10_fblock_stale_partial (f : SqL2 S M Y') (s1 : S) (terms : List (Term S M U)) (x : M) (hW : ∀ v, f.W v = v)
+    (h0 : 2 * f.scale ≠ 0) (h1 : 2 * s1 ≠ 0)
+    (hsys : f.A.adj (f.A.eval x) + (1 / (2 * f.scale)) • (terms.map fun t => t.rho • t.C.adj (t.C.eval x)).sum
+        = (1 / (2 * s1)) • rhsSpec (some (f.withScale s1)) terms) :
+    lhsSpec (some (f.withScale s1)) terms x = rhsSpec (some (f.withScale s1)) terms ↔
+      (s1 - f.scale) • (terms.map fun t => t.rho • t.C.adj (t.C.eval x)).sum = 0 :=
+  fblockStale_exact f s1 terms x hW h0 h1 hsys
 
 end StaleScale
 
